@@ -39,3 +39,32 @@ func VerifAnalyzeRecord(cfgNpre, cfgNsamp, recNpre int, signed bool, data []RawT
 func (vs *VerifSource) VerifConfigureProjectorsBases(channelIndex, nbases, nsamp int, proj, basis []float64) error {
 	return vs.ConfigureProjectorsBases(channelIndex, mat.NewDense(nbases, nsamp, proj), mat.NewDense(nsamp, nbases, basis), "verif")
 }
+
+// VerifProcessor is ONE DataStreamProcessor kept across several requests, so that histories
+// (load a model, analyse, load another model, analyse, ...) run against the real state.
+type VerifProcessor struct{ dsp *DataStreamProcessor }
+
+// NewVerifProcessor makes a processor configured for (npre, nsamp).
+func NewVerifProcessor(npre, nsamp int) *VerifProcessor {
+	return &VerifProcessor{dsp: NewDataStreamProcessor(0, nil, npre, nsamp)}
+}
+
+// SetProjectorsBasis hands row-major matrices and a model description to the real SetProjectorsBasis.
+func (p *VerifProcessor) SetProjectorsBasis(prows, pcols int, proj []float64, brows, bcols int, basis []float64, description string) error {
+	return p.dsp.SetProjectorsBasis(mat.NewDense(prows, pcols, proj), mat.NewDense(brows, bcols, basis), description)
+}
+
+// RemoveProjectorsBasis is the real removeProjectorsBasis.
+func (p *VerifProcessor) RemoveProjectorsBasis() { p.dsp.removeProjectorsBasis() }
+
+// ConfigurePulseLengths is the processor's real ConfigurePulseLengths (drops the model when a length changes).
+func (p *VerifProcessor) ConfigurePulseLengths(nsamp, npre int) error {
+	return p.dsp.ConfigurePulseLengths(nsamp, npre)
+}
+
+// Analyze runs the real AnalyzeData on one record.
+func (p *VerifProcessor) Analyze(recNpre int, signed bool, data []RawType) VerifRecord {
+	r := &DataRecord{data: data, presamples: recNpre, signed: signed}
+	p.dsp.AnalyzeData([]*DataRecord{r})
+	return VerifFromRecord(r)
+}
